@@ -368,6 +368,34 @@ func (d *Driver) Next() Event {
 			cr, pv := d.gatewayFor(d.R)
 			return Event{Kind: "Store", Creator: cr, Provider: pv, Gw: pv, Owner: sg, Signer: sg, Data: m.Data, Commit: base + "|" + newc, Op: int64(1 + d.R.Intn(2)),
 				Dur: d.pickI(d.P.Durs), Replica: 1, Timeout: d.pickI(d.P.Timeouts), Size: d.pickI(d.P.Sizes), Alias: m.Alias}
+		case "StoreSponsored":
+			// a payment did is named explicitly (the owner's own, or a sponsor's); submitted by its payment address,
+			// by the gateway, or by somebody else altogether
+			owner := d.pick(d.ownerDids())
+			paydid := owner
+			if d.R.Intn(2) == 0 {
+				paydid = d.pick(d.ownerDids())
+			}
+			creator := d.P.PayAcc[paydid]
+			switch d.R.Intn(3) {
+			case 1:
+				creator = d.pick(d.P.Gateways)
+			case 2:
+				creator = d.pick(d.allAccounts())
+			}
+			var free []string
+			for i := 1; i <= d.P.MaxData; i++ {
+				if d.findMeta(fmt.Sprintf("D%d", i)) == nil {
+					free = append(free, fmt.Sprintf("D%d", i))
+				}
+			}
+			if len(free) == 0 {
+				continue
+			}
+			data := free[d.R.Intn(len(free))]
+			gw := d.pick(d.P.Gateways)
+			return Event{Kind: "Store", Creator: creator, Provider: gw, Gw: gw, Owner: owner, Signer: owner, PayDid: paydid, Data: data, Commit: data, Op: 1,
+				Dur: d.pickI(d.P.Durs), Replica: int64(1 + d.R.Intn(2)), Timeout: d.pickI(d.P.Timeouts), Size: d.pickI(d.P.Sizes), Alias: "al" + data}
 		case "StoreOddBase":
 			// the owner himself names a base that is not exactly the latest version
 			if len(d.St.Metas) == 0 {
@@ -376,9 +404,9 @@ func (d *Driver) Next() Event {
 			m := d.St.Metas[d.R.Intn(len(d.St.Metas))]
 			d.nc++
 			newc := fmt.Sprintf("c%d", d.nc)
-			base := []string{"", m.Commit + "~", m.Data, "c999"}[d.R.Intn(4)]
+			commit := []string{"|" + newc, m.Commit + "~|" + newc, m.Data + "|" + newc, "c999|" + newc, newc, newc}[d.R.Intn(6)]
 			cr, pv := d.gatewayFor(d.R)
-			return Event{Kind: "Store", Creator: cr, Provider: pv, Gw: pv, Owner: m.Owner, Signer: m.Owner, Data: m.Data, Commit: base + "|" + newc, Op: 1,
+			return Event{Kind: "Store", Creator: cr, Provider: pv, Gw: pv, Owner: m.Owner, Signer: m.Owner, Data: m.Data, Commit: commit, Op: int64(1 + d.R.Intn(2)),
 				Dur: d.pickI(d.P.Durs), Replica: 1, Timeout: d.pickI(d.P.Timeouts), Size: d.pickI(d.P.Sizes), Alias: m.Alias}
 		case "Complete":
 			var cands []PShard
